@@ -304,6 +304,20 @@ def _fixed_point(family, y, e, init, labels, proto_y, proto_e, iterations):
         post = fam.predict(model, data)
     except ValueError as ex:
         if eu.is_singular_covariance_rejection(ex):
+            if family.startswith('gmm-') and np.ndim(y) == 2:
+                # an explicit rejection is acceptable only for a covariance that IS numerically singular: the textbook EM
+                # (centred scatter) must run into an ill-conditioned class covariance too
+                cond = []
+                try:
+                    eu.ref_gmm(y, init, iterations, family.split('-')[1], conditioning=cond)
+                    regular = bool(cond) and min(cond) > 1e-10
+                except Exception:  # noqa
+                    regular = False
+                if regular:
+                    return Fail(f'rejects-regular-covariance:{family}',
+                                f'{family}: fit raises "ill-defined empirical covariance" although every class covariance of '
+                                f'the textbook EM on this input is well conditioned (smallest eigenvalue ratio '
+                                f'{min(cond):.3g})')
             return Skip('sklearn rejected a numerically singular class covariance (explicit rejection)')
         raise
     # the trainer's own fit_predict entry point (the property's observation point) must rank the same way
